@@ -411,6 +411,8 @@ func requests(args []string) {
 	}
 	var cases []drive.ShapeCase
 	readJSON(*casesPath, &cases)
+	// v1 creates unknown ledgers on the fly in the default bucket: migrate it once, with the others
+	drive.BootBuckets = []string{"b1", "b2", "_default"}
 	base, err := drive.ShapeBase()
 	if err != nil {
 		die(err)
@@ -557,6 +559,7 @@ func replay(args []string) {
 			Case drive.ShapeCase `json:"case"`
 		}
 		_ = json.Unmarshal(raw, &r)
+		drive.BootBuckets = []string{"b1", "b2", "_default"}
 		base, err := drive.ShapeBase()
 		if err != nil {
 			die(err)
